@@ -25,7 +25,7 @@ type Step struct {
 }
 
 type Surgery struct {
-	Kind string `json:"kind"`        // tindex-torn | tindex-orphan | cindex-drop | cindex-stale | cindex-torn
+	Kind string `json:"kind"`        // tindex-torn | drop-window | cindex-drop | cindex-stale | cindex-torn
 	K    int    `json:"k,omitempty"` // torn: keep K per mille of the file (always a proper prefix)
 	Part int    `json:"part,omitempty"`
 }
@@ -151,7 +151,10 @@ func applySurgery(dir string, s Surgery, saved map[string][]byte, tr *trace) err
 		}
 		tr.inject = append(tr.inject, "start:"+how)
 		return nil
-	case "tindex-orphan": // crash between TIndex.Delete (index saved without the partition) and the removal of its directory
+	case "drop-window":
+		// a crash between the two effects of the removal of a partition, in the order the server applies them: the
+		// partition's directory is gone, its record is still in the tag index (that the server really removes the directory
+		// first is observed at every removal: dropWatch)
 		data, err := ioutil.ReadFile(tdat)
 		if os.IsNotExist(err) {
 			return nil
@@ -159,27 +162,26 @@ func applySurgery(dir string, s Surgery, saved map[string][]byte, tr *trace) err
 		if err != nil {
 			return err
 		}
-		var m map[string]json.RawMessage
+		var m map[string]struct{ Src string }
 		if err := json.Unmarshal(data, &m); err != nil {
-			return nil // already torn: nothing to take a record out of
+			return nil
 		}
 		var keys []string
 		for k := range m {
 			keys = append(keys, k)
 		}
 		sort.Strings(keys)
-		found := false
 		for _, k := range keys {
-			if bytes.Contains([]byte(k), []byte(fmt.Sprintf("p=%d", s.Part))) {
-				delete(m, k)
-				found = true
+			if bytes.Contains([]byte(k), []byte(fmt.Sprintf("p=%d", s.Part))) && m[k].Src != "" {
+				dirs, _ := filepath.Glob(filepath.Join(dir, "db", "*", m[k].Src))
+				for _, d := range dirs {
+					if err := os.RemoveAll(d); err != nil {
+						return err
+					}
+				}
 			}
 		}
-		if !found {
-			return nil
-		}
-		out, _ := json.Marshal(m)
-		return ioutil.WriteFile(tdat, out, 0640)
+		return nil
 	case "cindex-drop":
 		err := os.Remove(cdat)
 		if os.IsNotExist(err) {
@@ -206,6 +208,7 @@ type trace struct {
 	pre     []Obs    // one per session: what the server showed just before the session ended
 	obs     []Obs    // one per start
 	errs    []string // harness-level notes
+	drops   []string // per partition removal: which of its two file-system effects came first ("data-first", "record-first", "unseen")
 	inject  []string // how every injected crash ended ("start:died:file size limit exceeded", ...)
 	cdatOld bool
 }
@@ -270,7 +273,17 @@ func runScenario(sc *Scenario) (*trace, error) {
 				c.kill()
 				return nil, fmt.Errorf("unknown step %q", st.Op)
 			}
+			var dw *dropWatch
+			if st.Op == "drop" {
+				if dw, err = newDropWatch(dir); err != nil {
+					c.kill()
+					return nil, fmt.Errorf("session %d: inotify: %v", si, err)
+				}
+			}
 			a, err := c.do(cmd)
+			if dw != nil {
+				tr.drops = append(tr.drops, dw.order())
+			}
 			if err != nil {
 				c.kill()
 				return nil, fmt.Errorf("session %d: %v", si, err)
